@@ -84,6 +84,7 @@ func Catalogue() map[string]Script {
 		mk("c07:stray-then-query-then-silence", 4, 0, res(0, 1), start(0), wok(0), stray(9, 900), res(1, 2), start(1), wok(1), exp, res(2, 3))
 		mk("c07:late-reply-then-query-then-silence", 4, 10, res(0, 1), start(0), wok(0), cancel(0), reply(0, 100), res(1, 1), start(1), wok(1), exp)
 		mk("c07:reply-idle-then-query-then-silence", 4, 0, res(0, 1), start(0), wok(0), reply(0, 100), res(1, 1), start(1), wok(1), exp)
+		mk("c07:udp-resend-does-not-postpone-the-deadline", 4, 0, res(0, 1), start(0), wok(0), Action{K: ASleep}, exp, res(1, 2))
 		mk("c07:cancel-while-in-write", 4, 0, res(0, 1), start(0), cancel(0), wok(0))
 		mk("c07:close-while-in-write", 4, 0, res(0, 1), start(0), cls, wok(0))
 		mk("c07:reserve-after-faults", 2, 0, res(0, 1), start(0), werr(0), res(1, 1), res(2, 1))
